@@ -26,10 +26,14 @@ MUTANTS = [
                   ("dep_logic/utils.py", "    return _dnf(marker, str(marker))", "    return _dnf(marker, \"\")")],
     },
     {
-        "name": "from-specifier-attaches-prepadding-specifier",
+        "name": "from-specifier-pads-and-attaches-prepadding-specifier",
         "expect": "kill",
-        "why": "reverts the second repair: the atom carries a specifier spelled differently from its own text",
+        "runs": 600,
+        "why": "reverts the second repair: '~='/wildcard versions are zero-padded again and the atom carries the pre-padding specifier, which disagrees with (or is spelled differently from) its own text",
         "edits": [("dep_logic/markers/single.py",
+                   "                and pad_zeros\n",
+                   "                and True\n"),
+                  ("dep_logic/markers/single.py",
                    "            return MarkerExpression(name, pkg_spec.operator, pkg_version)\n",
                    "            return MarkerExpression(\n                name, pkg_spec.operator, pkg_version, _specifier=specifier\n            )\n")],
     },
